@@ -407,7 +407,137 @@ func streamConc(c *Ctx) {
 	pendingReadProbe(c)
 	earlyAccessorProbe(c)
 	requestIsolationProbes(c)
+	codecMemoryProbe(c)
+	sharedEndErrorProbe(c)
 	c.Note("%d goroutines x %d calls over %d client configurations; %d buffer-pool and %d codec-pool events recorded", G, K, len(sets), len(events), len(cevents))
+}
+
+// zeroCopyCodec hands the library the message's own memory: nothing in the Codec contract says
+// that the returned slice changes hands.
+type zeroCopyCodec struct{ rawCodec }
+
+func (zeroCopyCodec) Marshal(msg any) ([]byte, error) {
+	p, ok := msg.(*[]byte)
+	if !ok {
+		return nil, fmt.Errorf("raw codec: %T", msg)
+	}
+	return *p, nil
+}
+
+// codecMemoryProbe (F29): what a codec returns from Marshal stays the codec's (here: the
+// caller's message). The library may read it; it may not keep it as scratch space for later
+// calls - the message a caller sent must be intact after this and every later call.
+func codecMemoryProbe(c *Ctx) {
+	for _, proto := range []string{"connect", "grpc", "grpcweb"} {
+		for _, kind := range []string{"unary", "client"} {
+			echo := func(m []byte) []byte { return bytes.Repeat([]byte{'z'}, len(m)) }
+			var h http.Handler
+			if kind == "unary" {
+				h = connect.NewUnaryHandler("/s/m", func(ctx context.Context, r *connect.Request[[]byte]) (*connect.Response[[]byte], error) {
+					out := echo(*r.Msg)
+					return connect.NewResponse(&out), nil
+				}, connect.WithCodec(rawCodec{"raw"}))
+			} else {
+				h = connect.NewClientStreamHandler("/s/m", func(ctx context.Context, s *connect.ClientStream[[]byte]) (*connect.Response[[]byte], error) {
+					n := 0
+					for s.Receive() {
+						n += len(*s.Msg())
+					}
+					out := bytes.Repeat([]byte{'z'}, n)
+					return connect.NewResponse(&out), s.Err()
+				}, connect.WithCodec(rawCodec{"raw"}))
+			}
+			desc := fmt.Sprintf("%s %s calls through a codec whose Marshal returns the message's own bytes: the same 2000-byte message sent in three calls", proto, kind)
+			c.Begin(desc)
+			c.Count("codec-memory-probe")
+			got := safely(func() string {
+				opts := append(protoOpts(proto), connect.WithCodec(zeroCopyCodec{rawCodec{"raw"}}), connect.WithCompressMinBytes(1<<20))
+				cl := connect.NewClient[[]byte, []byte](&inprocClient{h: h}, "http://h/s/m", opts...)
+				msg := bytes.Repeat([]byte{'m'}, 2000)
+				want := append([]byte(nil), msg...)
+				for i := 1; i <= 3; i++ {
+					var err error
+					if kind == "unary" {
+						_, err = cl.CallUnary(context.Background(), connect.NewRequest(&msg))
+					} else {
+						st := cl.CallClientStream(context.Background())
+						_ = st.Send(&msg)
+						_, err = st.CloseAndReceive()
+					}
+					if !bytes.Equal(msg, want) {
+						k := 0
+						for k < len(msg) && k < len(want) && msg[k] == want[k] {
+							k++
+						}
+						return fmt.Sprintf("after call %d (err=%v) the caller's message has changed: len %d, first difference at byte %d: %q", i, err, len(msg), k, msg[k:min(k+12, len(msg))])
+					}
+					if err != nil {
+						return fmt.Sprintf("call %d failed: %v", i, err)
+					}
+				}
+				return "intact"
+			})
+			if got != "intact" {
+				c.Fail("conc-codec-memory-reused", desc, got, "memory returned by Codec.Marshal is not the library's to recycle: the caller's message must stay intact")
+			}
+		}
+	}
+}
+
+// sharedEndErrorProbe (F28): the error that ends a stream is handed to user code; it is a value
+// like any other - its Meta() belongs to that call. Two calls must not get the same *Error.
+func sharedEndErrorProbe(c *Ctx) {
+	for _, proto := range []string{"connect", "grpc", "grpcweb"} {
+		h := connect.NewBidiStreamHandler("/s/m", func(ctx context.Context, s *connect.BidiStream[[]byte, []byte]) error {
+			for {
+				if _, err := s.Receive(); err != nil {
+					return nil
+				}
+			}
+		}, connect.WithCodec(rawCodec{"raw"}))
+		desc := proto + ": two bidi calls that end cleanly; the *connect.Error inside the final Receive errors"
+		c.Begin(desc)
+		c.Count("shared-end-error-probe")
+		got := safely(func() string {
+			end := func() *connect.Error {
+				cl := connect.NewClient[[]byte, []byte](&inprocClient{h: h}, "http://h/s/m", protoOpts(proto)...)
+				st := cl.CallBidiStream(context.Background())
+				_ = st.Send(&[]byte{1})
+				_ = st.CloseRequest()
+				var last error
+				for i := 0; i < 5; i++ {
+					if _, err := st.Receive(); err != nil {
+						last = err
+						break
+					}
+				}
+				_ = st.CloseResponse()
+				var ce *connect.Error
+				if !errors.As(last, &ce) {
+					return nil
+				}
+				return ce
+			}
+			e1 := end()
+			if e1 != nil {
+				e1.Meta().Set("X-Seen-By", "call-1")
+			}
+			e2 := end()
+			if e1 == nil || e2 == nil {
+				return "no coded end error"
+			}
+			if e1 == e2 {
+				return "both calls ended with the very same *connect.Error value"
+			}
+			if v := e2.Meta().Get("X-Seen-By"); v != "" {
+				return "metadata set on the first call's end error shows on the second call's: " + v
+			}
+			return "distinct"
+		})
+		if got != "distinct" {
+			c.Fail("conc-shared-end-error", desc, got, "an error handed to one call must not be shared with another: Meta() writes into it")
+		}
+	}
 }
 
 // countingDetail is an ErrorDetail of the application's own type (not an *anypb.Any).
